@@ -46,6 +46,7 @@ class FrameData(IFLR):
         body = self._frame.obname + write_struct_uvari(self._frame_number)
 
         for s in self._slots:
-            body += s.byteswap().tobytes()
+            # big-endian bytes of the slot, whatever the byte order of the data it came from
+            body += np.asarray(s).astype(s.dtype.newbyteorder('>')).tobytes()
 
         return body
